@@ -10,8 +10,10 @@ import (
 	"os"
 	"runtime"
 	"sort"
+	"strconv"
 	"strings"
 	"sync"
+	"sync/atomic"
 	"time"
 
 	"cosmossdk.io/log"
@@ -145,6 +147,7 @@ const (
 	parkYield
 	parkOpEnd
 	parkExit
+	parkWatchdog
 )
 
 type parkMsg struct {
@@ -152,6 +155,7 @@ type parkMsg struct {
 	kind  parkKind
 	point string
 	out   OpOutput
+	ws    int64
 }
 
 type client struct {
@@ -176,7 +180,7 @@ type simRun struct {
 	clients []*client
 	parkCh  chan parkMsg
 	aborted bool
-	wg      sync.WaitGroup
+	started int
 
 	seq   int64
 	h     hash.Hash
@@ -185,7 +189,15 @@ type simRun struct {
 	stats RunStats
 
 	snapBuf  []cellObs
-	lastSeen map[string]time.Time // cell key -> last observed stored time
+	lastSeen []cellObs // last observed stored time per cell that was ever seen (sorted like snapshots)
+	lineBuf  []byte
+
+	// watchdog (see monitor)
+	waitSince  atomic.Int64
+	waitWhich  atomic.Int32
+	stallWs    int64 // monitor only
+	stallTicks int   // monitor only
+	exitCh    chan parkMsg
 }
 
 // goroutine registry used by the hook to find the calling simulated client.
@@ -240,6 +252,101 @@ func slowGoid() uint64 {
 	return id
 }
 
+// recv is a plain blocking receive (which = 0: park channel, 1: exit channel) that the monitor
+// goroutine can interrupt with a watchdog message when it lasts longer than Watchdog. Per-step
+// timers would be far more expensive than this.
+func (r *simRun) recv(which int32) (parkMsg, bool) {
+	for {
+		ws := time.Now().UnixNano()
+		r.waitWhich.Store(which)
+		r.waitSince.Store(ws)
+		var m parkMsg
+		if which == 0 {
+			m = <-r.parkCh
+		} else {
+			m = <-r.exitCh
+		}
+		r.waitSince.Store(0)
+		if m.kind == parkWatchdog {
+			if m.ws != ws {
+				continue // stale interrupt aimed at an earlier wait
+			}
+			return parkMsg{}, false
+		}
+		return m, true
+	}
+}
+
+const monitorTick = 250 * time.Millisecond
+
+var watchdogDump sync.Once
+
+var (
+	monitorMu   sync.Mutex
+	monitorRuns []*simRun
+	monitorOnce sync.Once
+)
+
+func monitorAdd(r *simRun) {
+	monitorOnce.Do(func() { go monitorLoop() })
+	monitorMu.Lock()
+	monitorRuns = append(monitorRuns, r)
+	monitorMu.Unlock()
+}
+
+func monitorRemove(r *simRun) {
+	monitorMu.Lock()
+	for i, x := range monitorRuns {
+		if x == r {
+			monitorRuns[i] = monitorRuns[len(monitorRuns)-1]
+			monitorRuns = monitorRuns[:len(monitorRuns)-1]
+			break
+		}
+	}
+	monitorMu.Unlock()
+}
+
+// monitorLoop is the watchdog: it never influences a run that makes progress.
+func monitorLoop() {
+	for {
+		time.Sleep(monitorTick)
+		now := time.Now().UnixNano()
+		monitorMu.Lock()
+		for _, r := range monitorRuns {
+			ws := r.waitSince.Load()
+			// A stall is counted in monitor ticks during which the very same wait is still pending,
+			// not only in wall time: a pause of the whole machine (VM freeze) or CPU starvation
+			// then does not trip the watchdog.
+			if ws == 0 || ws != r.stallWs {
+				r.stallWs, r.stallTicks = ws, 0
+				continue
+			}
+			r.stallTicks++
+			if now-ws < int64(Watchdog) || r.stallTicks < int(Watchdog/monitorTick) {
+				continue
+			}
+			watchdogDump.Do(func() {
+				buf := make([]byte, 256<<10)
+				n := runtime.Stack(buf, true)
+				fmt.Fprintf(os.Stderr, "pricesim: watchdog fired; goroutine dump follows\n%s\n", buf[:n])
+			})
+			msg := parkMsg{kind: parkWatchdog, ws: ws}
+			if r.waitWhich.Load() == 0 {
+				select {
+				case r.parkCh <- msg:
+				default:
+				}
+			} else {
+				select {
+				case r.exitCh <- msg:
+				default:
+				}
+			}
+		}
+		monitorMu.Unlock()
+	}
+}
+
 // hookFn is installed as simhook.Hook (build tag verif).
 func hookFn(point string) {
 	v, ok := registry.Load(goid())
@@ -260,7 +367,7 @@ func (c *client) park(m parkMsg) {
 }
 
 func (c *client) main() {
-	defer c.run.wg.Done()
+	defer func() { c.run.exitCh <- parkMsg{c: c, kind: parkExit} }()
 	id := goid()
 	registry.Store(id, c)
 	defer registry.Delete(id)
@@ -352,40 +459,70 @@ func (r *simRun) logf(format string, a ...interface{}) {
 
 func cellKey(m uint32, e string) string { return fmt.Sprintf("%d/%s", m, e) }
 
+// logYield is the allocation-free fast path of logf for the most frequent event.
+func (r *simRun) logLine(b []byte) {
+	r.h.Write(b)
+	r.h.Write([]byte{'\n'})
+	if r.keep {
+		r.log = append(r.log, string(b))
+	}
+}
+
 // observe snapshots the cache, logs a digest and checks oracle (b).
 func (r *simRun) observe() *Violation {
 	r.snapBuf = snapshot(r.mte, r.snapBuf)
-	var sb strings.Builder
-	present := make(map[string]bool, len(r.snapBuf))
+	b := append(r.lineBuf[:0], "  state"...)
 	var viol *Violation
+	// both r.snapBuf and r.lastSeen are sorted by (market, exchange): merge
+	j := 0
+	merged := false
 	for _, c := range r.snapBuf {
-		k := cellKey(c.market, c.exchange)
-		present[k] = true
-		fmt.Fprintf(&sb, " %s=%d@%d", k, c.price, c.t.UnixNano())
-		if prev, ok := r.lastSeen[k]; ok && c.t.Before(prev) && viol == nil {
-			viol = &Violation{Kind: KindMonotonic, Detail: fmt.Sprintf(
-				"stored update time of market %d exchange %s moved backwards: %d -> %d (price now %d) at event %d",
-				c.market, c.exchange, prev.UnixNano(), c.t.UnixNano(), c.price, r.seq)}
-		}
-		r.lastSeen[k] = c.t
-	}
-	if len(present) != len(r.lastSeen) && viol == nil {
-		keys := make([]string, 0, len(r.lastSeen))
-		for k := range r.lastSeen { // order fixed by the sort below
-			keys = append(keys, k)
-		}
-		sort.Strings(keys)
-		for _, k := range keys {
-			if !present[k] {
+		b = append(b, ' ')
+		b = strconv.AppendUint(b, uint64(c.market), 10)
+		b = append(b, '/')
+		b = append(b, c.exchange...)
+		b = append(b, '=')
+		b = strconv.AppendUint(b, c.price, 10)
+		b = append(b, '@')
+		b = strconv.AppendInt(b, c.t.UnixNano(), 10)
+		for j < len(r.lastSeen) && cellLess(r.lastSeen[j], c) {
+			if viol == nil {
 				viol = &Violation{Kind: KindMonotonic, Detail: fmt.Sprintf(
 					"stored entry %s (update time %d) vanished from the cache at event %d",
-					k, r.lastSeen[k].UnixNano(), r.seq)}
-				break
+					cellKey(r.lastSeen[j].market, r.lastSeen[j].exchange), r.lastSeen[j].t.UnixNano(), r.seq)}
 			}
+			j++
+		}
+		if j < len(r.lastSeen) && r.lastSeen[j].market == c.market && r.lastSeen[j].exchange == c.exchange {
+			if prev := r.lastSeen[j].t; c.t.Before(prev) && viol == nil {
+				viol = &Violation{Kind: KindMonotonic, Detail: fmt.Sprintf(
+					"stored update time of market %d exchange %s moved backwards: %d -> %d (price now %d) at event %d",
+					c.market, c.exchange, prev.UnixNano(), c.t.UnixNano(), c.price, r.seq)}
+			}
+			r.lastSeen[j] = c
+			j++
+		} else {
+			merged = true // new cell
 		}
 	}
-	r.logf("  state%s", sb.String())
+	if j < len(r.lastSeen) && viol == nil {
+		viol = &Violation{Kind: KindMonotonic, Detail: fmt.Sprintf(
+			"stored entry %s (update time %d) vanished from the cache at event %d",
+			cellKey(r.lastSeen[j].market, r.lastSeen[j].exchange), r.lastSeen[j].t.UnixNano(), r.seq)}
+	}
+	if merged && viol == nil {
+		r.lastSeen = append(r.lastSeen[:0], r.snapBuf...)
+	}
+	r.lineBuf = b
+	r.logLine(b)
 	return viol
+}
+
+func cellLess(a, b cellObs) bool {
+	if a.market != b.market {
+		return a.market < b.market
+	}
+	return a.exchange < b.exchange
 }
 
 func (r *simRun) stored(m uint32, e string) (cellObs, bool) {
@@ -567,28 +704,14 @@ func Execute(spec RunSpec, ch Chooser, opts ExecOpts) *ExecResult {
 		return res
 	}
 	r := &simRun{spec: spec, ix: ix, h: sha256.New(), keep: opts.KeepLog,
-		lastSeen: map[string]time.Time{}, parkCh: make(chan parkMsg)}
+		parkCh: make(chan parkMsg), exitCh: make(chan parkMsg, len(spec.Clients)+1)}
 	r.mte, r.srv = newCache(spec.MaxAgeNs)
 	readPool := readPoolOf(spec)
 	r.logf("run maxAge=%d clients=%d", spec.MaxAgeNs, len(spec.Clients))
 
-	timer := time.NewTimer(Watchdog)
-	defer timer.Stop()
-	wait := func() (parkMsg, bool) {
-		if !timer.Stop() {
-			select {
-			case <-timer.C:
-			default:
-			}
-		}
-		timer.Reset(Watchdog)
-		select {
-		case m := <-r.parkCh:
-			return m, true
-		case <-timer.C:
-			return parkMsg{}, false
-		}
-	}
+	monitorAdd(r)
+	defer monitorRemove(r)
+	wait := func() (parkMsg, bool) { return r.recv(0) }
 
 	// start clients one by one; each parks immediately at "ready"
 	for id, ops := range spec.Clients {
@@ -598,7 +721,7 @@ func Execute(spec RunSpec, ch Chooser, opts ExecOpts) *ExecResult {
 			c.done = true
 			continue
 		}
-		r.wg.Add(1)
+		r.started++
 		go c.main()
 		if _, ok := wait(); !ok {
 			res.Internal = fmt.Errorf("watchdog: client %d did not reach its start point", id)
@@ -612,13 +735,12 @@ func Execute(spec RunSpec, ch Chooser, opts ExecOpts) *ExecResult {
 		for _, c := range r.clients {
 			close(c.resume)
 		}
-		doneCh := make(chan struct{})
-		go func() { r.wg.Wait(); close(doneCh) }()
-		select {
-		case <-doneCh:
-		case <-time.After(Watchdog):
-			if res.Internal == nil && res.Violation == nil {
-				res.Internal = fmt.Errorf("watchdog: client goroutines did not exit")
+		for n := 0; n < r.started; n++ {
+			if _, ok := r.recv(1); !ok {
+				if res.Internal == nil && res.Violation == nil {
+					res.Internal = fmt.Errorf("watchdog: client goroutines did not exit")
+				}
+				break
 			}
 		}
 		res.Schedule = append([]int(nil), res.Schedule...)
@@ -732,7 +854,13 @@ func Execute(spec RunSpec, ch Chooser, opts ExecOpts) *ExecResult {
 		switch m.kind {
 		case parkYield:
 			r.stats.Yields++
-			r.logf("%d c%d yield %s", r.seq, c.id, m.point)
+			b := strconv.AppendInt(r.lineBuf[:0], r.seq, 10)
+			b = append(b, " c"...)
+			b = strconv.AppendInt(b, int64(c.id), 10)
+			b = append(b, " yield "...)
+			b = append(b, m.point...)
+			r.lineBuf = b
+			r.logLine(b)
 			if strings.HasSuffix(m.point, ".beforeLock") {
 				c.atLock = true
 			}
